@@ -33,7 +33,7 @@ AX = {
     "cell": ["NaCl", "wurtzite", "tri3", "NaCl-ext", "Cr-col", "Cr-col-zero", "Cr-ncl", "NaCl-mass"],
     "S": ["222", "211", "nondiag"],
     "pm": ["none", "auto"],
-    "dataset": ["type1", "none", "type1+E", "type2", "type2+E", "type1-noforces"],
+    "dataset": ["type1", "none", "type1+E", "type2", "type2+E", "type1-noforces", "type1-partial"],
     "fc": ["none", "full", "compact"],
     "nac": ["none", "born", "born+method"],
     "settings": list(range(32)),
@@ -152,6 +152,11 @@ def build(case, seed):
             ph.dataset = {"displacements": disp, "forces": F}
             if ds.endswith("+E"):
                 ph.supercell_energies = np.arange(n) * 0.123456789012 * case.get("scale", 1.0) - 3.3
+        elif ds == "type1-partial":
+            # forces collected for the first displacement only (a run in progress)
+            dsp = copy.deepcopy(ph.dataset)
+            dsp["first_atoms"][0]["forces"] = np.array(F[0], dtype="double")
+            ph.dataset = dsp
         elif ds != "type1-noforces":
             ph.forces = F
             if ds.endswith("+E"):
